@@ -70,6 +70,14 @@ def declare_problem(P, objective, weights=None):
         # the weights as declared by the user (not read back from the objects)
         objs[0]._declared_weight = P.v("w1") if w1 == "sym" else w1
         objs[1]._declared_weight = P.v("w2") if w2 == "sym" else w2
+    elif objective in ("weighted_min_default_weights", "weighted_max_default_weights"):
+        # no weight given: the documented default is 1 for every objective
+        i1 = ps.IndicatorFromMathExpression(name="ia", expression=a.e)
+        i2 = ps.IndicatorFromMathExpression(name="ib", expression=b.e - b.s)
+        cls = ps.ObjectiveMinimizeIndicator if objective.startswith("weighted_min") else ps.ObjectiveMaximizeIndicator
+        objs.append(cls(target=i1))
+        objs.append(cls(target=i2))
+        objs[0]._declared_weight = objs[1]._declared_weight = 1
     elif objective == "weighted_builtin_late":
         # built-in objectives take no weight argument: the public field is assigned after creation
         objs.append(ps.ObjectiveMinimizeMakespan())
@@ -368,6 +376,9 @@ def shapes(tier):
     for weights in [("sym", "sym"), (5, 2), (0, 3)]:
         out.append(trace_shape("weighted_builtin_late", {}, weights=weights, max_checks=4))
         out.append(trace_shape("weighted_builtin_late", {"optimizer": "optimize", "optimize_priority": "weight"}, weights=weights, max_checks=2))
+    for wobj in ("weighted_min_default_weights", "weighted_max_default_weights"):
+        out.append(trace_shape(wobj, {}, max_checks=4))
+        out.append(trace_shape(wobj, {"optimizer": "optimize", "optimize_priority": "weight"}, max_checks=2))
     for wobj in ("weighted_bounded_first", "weighted_bounded_last"):
         out.append(trace_shape(wobj, {}, max_checks=K))
         out.append(trace_shape(wobj, {"max_iter": 2}, max_checks=K))
